@@ -17,10 +17,10 @@ CHECKS = {
          "Each hostile input is decoded from three memory placements by every decoder, by Request.Fields and (as a reply stream) by Client.Send; panics, faults, capacity-dependent results, over-cap bodies, invalid accepted values and allocation above 16*len+64KiB are violations.",
          "reads before the start of a slice are impossible in safe Go; allocation measured with runtime.ReadMemStats in a single-goroutine worker", "3/C04"),
  "C03": ("reference-model runtime monitor at the socket (raw server/client bytes vs header||(body XOR independent MD5 pad), cleartext seen by handlers and returned by Client.Send)",
-         "The real server loop and Client.Send run over a scripted in-memory connection; every written byte and every delivered cleartext is compared with the reference pad for secrets/sessions/versions/sequence numbers/body lengths listed in the evidence; also the server's own bad-secret error packets, whatever is written after an injected write fault, request packets put together in five ways (stale length fields) and replies sent through Response.Write.",
+         "The real server loop and Client.Send run over a scripted in-memory connection; every written byte and every delivered cleartext is compared with the reference pad for secrets/sessions/versions/sequence numbers/body lengths listed in the evidence; also the server's own bad-secret error packets, whatever is written after an injected write fault, request packets put together in five ways (stale length fields), replies sent through Response.Write, and connection secrets cut from one shared buffer (which must stay untouched).",
          "trusts crypto/md5 and h/rfc8907.Pad; Client driven through the verif-only constructor NewClientFromConn", "3/C03"),
  "C05": ("scripted-delivery runtime monitor (generated TCP segmentation schedules against the real reader; wrapping Handler + connection event log)",
-         "Streams of packets are cut by 17 segmentation schedules and fed to the real server loop / Client.Send; the handler must see exactly the packets sent and the bodies it was handed (kept by reference) must stay intact while later packets are read; truncation, stall, pause-inside-packet and oversize-header scenarios (server and client as receiver) are judged on the Read/Close event log (virtual time) and a heap meter.",
+         "Streams of packets are cut by 17 segmentation schedules and fed to the real server loop / Client.Send; the handler must see exactly the packets sent and the bodies it was handed (kept by reference) must stay intact while later packets are read; truncation, stall, pause-inside-packet and oversize-header scenarios (server and client as receiver), pauses beyond the read deadline, parallel connections after refused ones and proxy-mode streams are judged on the Read/Close event log (virtual time) and a heap meter.",
          "simnet delivers at most one chunk per Read; oversize allocation bound 64 KiB (minimum over up to three attempts) measured with ReadMemStats", "3/C05"),
  "C06": ("raw-header runtime monitor in lock-step (reply bytes re-framed independently and compared octet by octet with the mirrored header and reference pad)",
          "All 196608 request headers (3 types x 2 minor x 256 flag octets x 128 odd sequence numbers) and every reply kind/size are exchanged with the real server loop; each reply's raw header, length field and obfuscation are checked; replies through Response.Write, fallback replies after an unsendable first reply, full 1..255 walks, and every reply of the reference server's handler paths go through the same oracle.",
@@ -29,43 +29,43 @@ CHECKS = {
          "All histories of length <= 4 over {1,2,3,5,253,255}x{A,B} plus seeded random longer histories are played in lock-step; every dispatch (which handler: initial or which continuation) and every rejection (no handler, closed) must match the model; on the reference server a final status must register no continuation and a finished session's id must start again at the initial handler.",
          "RESTART replies excluded from the scripts; handler identity observed through the wrapping Handler", "3/C08"),
  "C17": ("event-order runtime monitor over the totally ordered simnet log with virtual time; cancellation injected at generated moments",
-         "Shutdown scenarios with connections in every state and pacing scenarios are run against the real Serve loop; the oracle checks that nothing happens after Serve returned, that listener/connections/handlers are finished by then, that Serve does not return early, that a deadline is armed at every Read and that stalled connections are closed without a handler call.",
+         "Shutdown scenarios with connections in every state and pacing scenarios are run against the real Serve loop; the oracle checks that nothing happens after Serve returned, that listener/connections/handlers are finished by then, that Serve does not return early, that a deadline is armed at every Read and that stalled connections (22 pacing patterns incl. pending sessions, single-connect, pipelined tails, providers answering nothing, proxy mode) are closed without a handler call.",
          "liveness restated as bounded progress with a quiescent-state witness; real 15 s/10 s deadlines emulated by virtual time", "3/C17"),
  "C19": ("classifier-based runtime monitor (independent length-consistency classifier of the bytes the server will see; handler entries / packets / close observed in lock-step)",
-         "Requests are classified must-flag / must-not-flag / unjudged by h/rfc8907.Decode over all layouts of the type; the real loop must answer must-flag with exactly one ERROR packet of the matching type, no handler, close, and must dispatch must-not-flag requests.",
+         "Requests are classified must-flag / must-not-flag / unjudged by h/rfc8907.Decode over all layouts of the type; the real loop must answer must-flag with exactly one ERROR packet of the matching type, no handler, close (also when a second mismatching packet shares the segment, nothing of which may reach the next connection), and must dispatch must-not-flag requests.",
          "error packet judged only on count, type, reply layout and ERROR status", "3/C19"),
  "C20": ("conservation runtime monitor over the default prometheus registry (pre-burst vs quiescent values, non-negativity of every sample)",
-         "Bursts of connection histories of 19 kinds (completed, abandoned, rejected, refused, shutdown, top of the number space, reused ids) are run sequentially and concurrently against one server per burst; gauges are sampled throughout and compared at quiescence.",
+         "Bursts of connection histories of 21 kinds (completed, abandoned, rejected, refused, shutdown, top of the number space, reused ids, key mismatch after an open session, hang-up at once; every fifth burst in proxy mode) are run sequentially and concurrently against one server per burst; gauges are sampled throughout and compared at quiescence.",
          "gauges are process-global: one server per burst, one process per batch", "3/C20"),
  "C07": ("counting runtime monitor in lock-step on the reference server (packets written between consecutive blocking reads, handler entries at a wrapping Handler, header/sequence/key-mismatch model)",
-         "Generated multiplexed sessions over every handler path and user kind are played against the reference server; each accepted request must produce exactly one reply packet (none for 255) and keep the connection reading; each rejected one no handler, at most one packet and a close. Finished session ids are reused; a quarter of the configurations serve from a SPAN scope whose span host is down. Component pass drives stringy and bcrypt handlers directly.",
+         "Generated multiplexed sessions over every handler path and user kind are played against the reference server; each accepted request must produce exactly one reply packet (none for 255) and keep the connection reading; each rejected one no handler, at most one packet and a close. Finished session ids are reused, open ones are replayed under another packet type; a quarter of the configurations serve from a SPAN scope whose span host is down. Component pass drives stringy and bcrypt handlers directly.",
          "open sessions are read from the wrapping Response (continuation registered) at the API boundary; unjudged key-mismatch class may go either way but completely", "3/C07"),
  "C14": ("crash monitor: hostile generated streams against the reference server in worker processes, panic-recording Handler wrapper, parent-side death localisation, control connections before/after; thorough adds -race/checkptr",
          "Random bytes, mutated packets, every body in every handler state, truncated/oversize packets, odd-user recipes, sequence games on an open session and proxy junk are sent over 1-64 connections (from the intact and from the odd scopes) under nine rich and odd configuration variants incl. SPAN scopes; any recorded or process-level panic and any wrong control answer is a violation.",
          "streams bounded to 64 KiB; DNS provider and syslog accounter are not exercised; the SPAN handler type is registered and exercised with a span host that is down only", "3/C14"),
  "C12": ("event-log checker over accounting sink records and reply writes sharing one logical clock (exactly-once, order, byte-for-byte fidelity via unique task ids)",
-         "Accounting requests with hostile characters, every flag octet and 0..255 arguments are sent on up to 16 concurrent connections to the reference server; for every SUCCESS reply exactly one earlier sink record with the request's task id must decode to exactly the request; listed ERROR cases must be answered ERROR. Half of the batches render through a real log.Logger, a quarter serve from a SPAN scope whose span host is down.",
+         "Accounting requests with hostile characters, every flag octet and 0..255 arguments are sent on up to 16 concurrent connections to the reference server; for every SUCCESS reply exactly one earlier sink record with the request's task id must decode to exactly the request; listed ERROR cases must be answered ERROR. Half of the batches render through a real log.Logger, a quarter serve from a SPAN scope whose span host is down; a fifth of the requests continue the previous session id.",
          "record format = JSON of the decoded request as the reference accounter emits it; syslog accounter not exercised (needs a syslog socket)", "3/C12"),
  "C18": ("taint-token runtime monitor over an injected recording logger plus the stock logger's debug output",
-         "Every login carries a unique random password token and the scope a unique secret token; all logger calls (messages, Record maps minus caller-obscured keys, retained context fields) and the stock Logger's level-30 output are searched for the tokens in plain/hex/base64 form across all START combinations, ASCII/PAP flows, aborts, empty answers, error paths, slow keychains and wrong-key connections.",
+         "Every login carries a unique random password token and the scope a unique secret token; all logger calls (messages, Record maps minus caller-obscured keys, retained context fields) and the stock Logger's level-30 output are searched for the tokens in plain/hex/base64 form across all START combinations, ASCII/PAP flows, aborts, empty answers, error paths, slow keychains, multiplexed logins and wrong-key connections; stock logger at levels 10, 20 and 30.",
          "stock logger at level 30 in half of the batches, 10 and 20 in a quarter each", "3/C18"),
  "C10": ("reference-evaluator runtime monitor for authentication (independent evaluation of configuration + session transcript; soundness on every reply, completeness on well-formed logins)",
-         "Generated configurations (scopes, users, groups, credential kinds, duplicates) and authentication histories are played against the reference server; a PASS must be justified by a (user, password) pair the session itself carried that verifies in the connection's scope; well-formed ASCII/PAP logins with the right password must end in PASS.",
+         "Generated configurations (scopes, users, groups, credential kinds, duplicates) and authentication histories are played against the reference server; a PASS must be justified by a (user, password) pair the session itself carried that verifies in the connection's scope; abort bits combined with other flag bits and group-inherited keychain authenticators are included; well-formed ASCII/PAP logins with the right password must end in PASS.",
          "bcrypt trusted; passwords 1..72 bytes; soundness judged generously over all pairs a session carried", "3/C10"),
  "C11": ("reference-evaluator runtime monitor for authorization (multi-reading evaluator of rule order / whole-string match / default deny and of service selection)",
          "Generated policies (regex grammar incl. partial anchors, alternations, (?m), invalid patterns; user/group layering; services with conditions and optional values) and requests aimed at the policies' own patterns are sent to the reference server; grants must be justified by a permit as first applying rule under some reading; canonical session requests must return exactly the expected value set and add/replace status.",
          "regexp trusted; command path judged in the grant direction only; non-canonical session requests unjudged", "3/C11"),
  "C09": ("differential transcript runtime monitor (each session's replies when multiplexed / concurrent vs when run alone; byte-for-byte)",
-         "Sets of 2-8 session scripts are run multiplexed under generated interleavings (all interleavings of 2 scripts x <= 3 packets enumerated), on concurrent connections with identical session ids from two scopes, and alone; every transcript must equal the solo transcript. Thorough adds -race.",
+         "Sets of 2-8 session scripts are run multiplexed under generated interleavings (all interleavings of 2 scripts x <= 3 packets enumerated), on concurrent connections with identical session ids from two scopes (half of the time from one host), and alone; every transcript must equal the solo transcript. Thorough adds -race.",
          "replies are deterministic functions of the session; coverage floor counts interleavings with two sessions open at once", "3/C09"),
  "C13": ("reference-evaluator runtime monitor for admission (netip-based evaluator vs Loader.Get and vs the full server's connection event log and AAA outcomes)",
-         "Generated ordered scopes with overlapping IPv4/IPv6 prefixes, deny/allow lists and scoped users; boundary addresses of every prefix in 4-byte, mapped and IPv6 encodings; refused connections must show only RemoteAddr+Close, served ones must work under the expected scope's key and user set only; lookups issued at the same instant from 8 goroutines must each be bound by their own address.",
+         "Generated ordered scopes with overlapping IPv4/IPv6 prefixes, deny/allow lists and scoped users; boundary addresses of every prefix in 4-byte, mapped and IPv6 encodings; refused connections must show only RemoteAddr+Close, served ones must work under the expected scope's key and user set only; lookups issued at the same instant from 8 goroutines must each be bound by their own address; a user assigned to several scopes must exist in exactly those.",
          "IPv4(-mapped) vs ::/0-like prefixes unjudged; valid CIDRs only", "3/C13"),
  "C16": ("differential runtime monitor over load histories (long-lived loader object vs fresh loader per document; snapshots of published values; end-to-end lookups/AAA vs fresh server)",
-         "Histories of 2-6 YAML/JSON documents (edits dropping keys, shrinking/reordering lists, removing per-user fields; invalid documents interleaved) are fed to one loader object; outcome and published value must equal a fresh loader's, earlier published values must not change, failed loads publish nothing; sampled histories are replayed through Loader+server and compared with a fresh server.",
+         "Histories of 2-6 YAML/JSON documents (edits dropping keys, shrinking/reordering lists, removing per-user fields; invalid documents interleaved) are fed to one loader object; outcome and published value must equal a fresh loader's, earlier published values must not change, failed loads publish nothing; sampled histories are replayed through Loader+server (half of them with traffic between the loads) and compared with a fresh server.",
          "nil == empty; every third history goes through Load(path) of one file with a pinned modification time; the fsnotify watcher itself is driven in the thorough tier only", "3/C16"),
  "C15": ("Go race detector over the whole reference server under generated concurrent load with reloads and shutdown (reports de-duplicated by owner-frame pair) + porcupine linearizability check of lookup/reload histories + re-hashing of published configurations",
-         "Workers built with -race run 8-48 client goroutines (all AAA kinds, multiplexed sessions, shared users), a reloader through the real yaml/json loaders, lookup probers and shutdowns, plus a slice over real loopback TCP; any race report owned by a tacquito frame is a violation. Lookup/reload histories with generation-encoding deny/allow lists and keys are checked with porcupine against a one-register model (a mixture is illegal in every state; generations that build no provider must refuse everything); every published configuration is deep-hashed and re-checked after later loads.",
+         "Workers built with -race run 8-48 client goroutines (all AAA kinds, multiplexed sessions, shared users), a reloader through the real yaml/json loaders, lookup probers, goroutines using the client-side header/packet helpers and shutdowns, plus a slice over real loopback TCP; any race report owned by a tacquito frame is a violation. Lookup/reload histories with generation-encoding deny/allow lists and keys are checked with porcupine against a one-register model (a mixture is illegal in every state; generations that build no provider must refuse everything); every published configuration is deep-hashed and re-checked after later loads.",
          "races only among executed accesses; write completion taken at a barrier (configuration consumed, then one lookup through the loader's loop); harness-only race reports make the run inconclusive", "3/C15"),
 }
 
